@@ -391,7 +391,13 @@ class C14(Check):
             cmd = [util, "--module", module, "--delete-token"] + (["--serial", victim.serial] if op[2] else ["--token", victim.label])
         p = subprocess.run(cmd, env=env, stdout=subprocess.PIPE, stderr=subprocess.STDOUT, timeout=120)
         out = p.stdout.decode("latin-1")
-        if p.returncode != 0:
+        # a label carried by several tokens does not identify one: the tool must refuse and delete nothing
+        ambiguous = kind == "util_delete" and not op[2] and sum(1 for t in toks if t.label == victim.label) > 1
+        if ambiguous:
+            if p.returncode == 0:
+                raise V("softhsm2-util --delete-token --token %s succeeded although %d tokens carry that label" % (victim.label, sum(1 for t in toks if t.label == victim.label)))
+            labels.add("util_delete_ambiguous_refused")
+        elif p.returncode != 0:
             raise V("softhsm2-util %s failed (%d): %s" % (" ".join(cmd[3:]), p.returncode, out[-300:]))
         r = stage.restart()
         w[0] = stage.w
@@ -399,15 +405,26 @@ class C14(Check):
             raise V("C_Initialize after softhsm2-util failed: %s" % K.rvname(r["rv"]))
         if kind == "util_init":
             # the new token is identified by its label; its serial and slot are read once, then it is a token like the others
+            # the new token is the one whose serial no token of the model carries (labels may repeat: a label is not an identity)
             found = None
+            known_serials = {t.serial for t in toks}
+            news = []
             for sl in w[0].C_GetSlotList()["slots"]:
                 ti = w[0].C_GetTokenInfo(slot=sl)
-                if ti["rv"] == 0 and bytes.fromhex(ti["label"]).decode("latin-1").rstrip() == label:
-                    found = (sl, bytes.fromhex(ti["serial"]).decode("latin-1"))
+                if ti["rv"] == 0 and (ti["flags"] & K.CKF_TOKEN_INITIALIZED):
+                    ser = bytes.fromhex(ti["serial"]).decode("latin-1")
+                    if ser not in known_serials:
+                        news.append((sl, ser, bytes.fromhex(ti["label"]).decode("latin-1").rstrip()))
+            if len(news) == 1 and news[0][2] == label:
+                found = news[0][:2]
+            elif news:
+                raise V("after softhsm2-util --init-token --free --label %s a new process lists %d new token(s): %s" % (label, len(news), news))
             if found is None:
                 raise V("the token made by softhsm2-util --init-token --free --label %s is not listed by a new process" % label)
             toks.append(Tok(label, so, user, found[0], found[1]))
             labels.add("util_init_ok")
+        elif ambiguous:
+            pass
         else:
             toks.remove(victim)
             for sl in w[0].C_GetSlotList()["slots"]:
